@@ -488,9 +488,23 @@ func (c *FnCtx) runFunction(fr *Frame, entry *State) {
 		if li := loops[b]; li != nil {
 			// invariant on entry
 			c.loopEntry(fr, st, li)
+		} else if li := innermostLoop(loops, b); li != nil && li.rangeAlloc != nil {
+			// blocks are scheduled in one global order: a body block of an earlier loop may
+			// run after a later loop was entered; `rangeindex` means the loop the block is in
+			fr.curLoop = li
 		}
 		c.execBlock(fr, st, b, loops, in)
 	}
+}
+
+func innermostLoop(loops map[*ssa.BasicBlock]*loopInfo, b *ssa.BasicBlock) *loopInfo {
+	var best *loopInfo
+	for _, li := range loops {
+		if li.blocks[b] && (best == nil || len(li.blocks) < len(best.blocks) || (len(li.blocks) == len(best.blocks) && li.head.Index < best.head.Index)) {
+			best = li
+		}
+	}
+	return best
 }
 
 // runPaths explores the CFG path by path (no state merging): smaller, branch-free queries at
